@@ -512,6 +512,17 @@ func c02Negative() []refTree {
 			out = append(out, refTree{Root: "w/root.json", Files: map[string]string{"w/root.json": mustJSON(root), "w/lib.json": mustJSON(libDoc)}, External: true,
 				Plans: []refPlan{{Position: pos.name, Kind: pos.kind, Form: "fragment", Shape: "direct", Ref: "lib.json#/" + top + "/Foo", Fails: "missing-fragment-present-in-referrer"}}})
 		}
+		// array indexes that are no JSON-pointer indexes (leading zeros, a sign, blanks) designate nothing
+		if pos.kind == "schema" {
+			for _, badIdx := range []string{"01", "+1", "1 ", "00", "1.0", "-0"} {
+				root = refRootSkeleton()
+				dig(root, "components", "schemas")["Two"] = gen.S{"allOf": gen.Arr(gen.S{"type": "string", "title": "MARKZERO"}, gen.S{"type": "integer", "title": "MARKONE"})}
+				ref := "#/components/schemas/Two/allOf/" + strings.ReplaceAll(badIdx, " ", "%20")
+				pos.plant(root, gen.S{"$ref": ref})
+				out = append(out, refTree{Root: "w/root.json", Files: map[string]string{"w/root.json": mustJSON(root)},
+					Plans: []refPlan{{Position: pos.name, Kind: pos.kind, Form: "internal", Shape: "direct", Ref: ref, Fails: "array-index-not-a-pointer-index:" + badIdx}}})
+			}
+		}
 		// pointer tokens that are only the beginning of a field or collection name designate nothing
 		for _, bad := range []string{"#/component/" + coll + "/Other", "#/components/" + strings.TrimSuffix(coll, "s") + "/Other", "#/componen/" + coll + "/Other", "#/components/" + coll + "/Othe"} {
 			if coll == "" {
